@@ -304,5 +304,29 @@ theorem compose_inside_longer_program (X : Scope) (hX : NoRefs X) (o1 : List Out
   rw [afterPrefix, e3, e1, init_is_bare_plus_platform, e2]
   cases runLoop prog g f 0 prog (bare w) <;> simp [Res.rn, Res.under, TX, St.under, PErr.under]
 
+/-- **compose with the line shift**: the later fragment, written `n` lines further down (its locations shifted by `n`) at the end of the
+    longer program `pre ++ …`, started in the state a container-free, residue-free earlier fragment leaves, ends like the fragment run as
+    a program of its own from line 1 — an error is the same error with its line moved down by `n` and the earlier output under its
+    own, a normal end has the same heap, world, flags and loops and the earlier output underneath -/
+theorem compose_with_line_shift (n : Nat) (X : Scope) (hX : NoRefs X) (o1 : List Out) (w : World) (pre prog : List Stmt)
+    (hwf : progWF prog = true) (hprog : avL (platformConst :: keysOf X) prog) (g : GcMode) (f : Nat) :
+    (match runLoop (pre ++ relL (shiftBy n) prog) g f 0 (relL (shiftBy n) prog) (afterPrefix X o1 w), runLoop prog g f 0 prog (St.init w) with
+      | .ok s', .ok s => s'.out = s.out ++ o1 ∧ s'.heap = s.heap ∧ s'.world = s.world ∧ s'.flags = s.flags
+      | .err e', .err e => e' = { relErr (shiftBy n) e with out := e.out ++ o1 }
+      | .panic p', .panic p => p' = p
+      | .fuel, .fuel => True
+      | _, _ => False) := by
+  have h1 := compose_inside_longer_program X hX o1 w pre (relL (shiftBy n) prog)
+    (by rw [progWF_rel]; exact hwf) (avL_rel (shiftBy n) _ prog hprog) g f
+  have h2 := moved_fragment_same_run n prog g f 0 prog (St.init w)
+  rw [show relSt (shiftBy n) (St.init w) = St.init w from rfl] at h2
+  rw [h2] at h1
+  have ho : ∀ e : PErr, (relErr (shiftBy n) e).out = e.out := by intro e; simp only [relErr]; split <;> rfl
+  revert h1
+  cases runLoop (pre ++ relL (shiftBy n) prog) g f 0 (relL (shiftBy n) prog) (afterPrefix X o1 w) <;>
+    cases runLoop prog g f 0 prog (St.init w) <;> simp only [Res.rel] <;> try exact id
+  · intro h; exact ⟨h.1, h.2.1, h.2.2.1, h.2.2.2.1⟩
+  · intro h; rw [h, ho]
+
 end C19
 end Pakhi
